@@ -8,6 +8,7 @@ Model: `Model/TimeoutCoord.lean` (the code after the `fix:` commit that resets `
 import SwimVerif.Proofs.TimeoutCoord
 import SwimVerif.Proofs.InactivityRt
 import SwimVerif.Proofs.InactivityDl
+import SwimVerif.Proofs.CoordPoll
 
 set_option linter.unusedVariables false
 namespace SwimVerif.Coord
@@ -688,3 +689,65 @@ example : (reachDl 1001 [.adv 9, .attach 1, .adv 21]).stop = none := by decide
 example : (reachDl 1001 [.adv 11]).stop = some 1001 := by decide
 
 end SwimVerif.InactDl
+
+/-!
+## Below the atomic `poll` of the model above: the wake-up handshake, every memory operation its own step
+(`Model/CoordPoll.lean`)
+
+`C17_no_parked_receiver_after_unanimity` and `C17_parked_receiver_woken_by_unanimity` treat `Receiver::poll` and
+`Voter::vote` as atomic. Here `vote` = `fetch_or` ; (later) `waker.wake()`, and `poll` = `load` ; `register` ; `load`;
+an execution is any interleaving of these steps of any number of parties, with rescinds and re-polls.
+-/
+namespace SwimVerif.CoordPoll
+
+def reachP (n : Nat) (twoLoads : Bool) (evs : List Ev) : St := run (init n twoLoads) evs
+
+/-- **No lost wake-up, for every interleaving of the individual memory operations**: with the re-check of the flags
+after `register` (the code as it is), a receiver that was told `Pending` while every flag is set has been woken — or
+the voter whose `fetch_or` set the last flag has not yet executed its `waker.wake()`. -/
+theorem C17_poll_no_lost_wakeup (n : Nat) (evs : List Ev)
+    (hp : (reachP n true evs).rpc = .pending) (ha : allSet (reachP n true evs) = true) :
+    (reachP n true evs).woken = true ∨ anyOwes (reachP n true evs) = true := by
+  have h := inv_run (inv_init n true) evs
+  have ht : (reachP n true evs).twoLoads = true := by
+    have : ∀ (s : St) (evs : List Ev), (run s evs).twoLoads = s.twoLoads := by
+      intro s evs
+      induction evs generalizing s with
+      | nil => rfl
+      | cons e es ih =>
+        simp only [run, List.foldl] at ih ⊢
+        rw [ih]
+        cases e <;> simp only [step] <;> (repeat' split) <;> rfl
+    exact this _ evs
+  exact h.p ht hp ha
+
+/-- … and that owed `wake()` does wake it: the waker is still in the `AtomicWaker` when the voter gets there. -/
+theorem C17_poll_owed_wake_delivers (n : Nat) (evs : List Ev) (i : Nat)
+    (hp : (reachP n true evs).rpc = .pending) (ho : (reachP n true evs).owes.getD i false = true) :
+    (step (reachP n true evs) (.wake i)).woken = true := by
+  have h : Inv (reachP n true evs) := inv_run (inv_init n true) evs
+  generalize reachP n true evs = s at *
+  simp only [step, ho, if_true]
+  cases hw : s.woken with
+  | false => have := h.j3 (Or.inr hp) hw; rw [if_pos this]
+  | true => split <;> rfl
+
+/-- "A receiver told `Pending` with every flag set is woken or still owed its wake-up" is **false** for a `poll` that
+does not look at the flags again after registering (seeded change C17/r3m1): `load` (not all) ; the last `fetch_or` ;
+its `wake()` (no waker yet) ; `register` — parked for ever. -/
+def C17_poll_one_load_no_lost_wakeup : Prop :=
+  ∀ (n : Nat) (evs : List Ev), (reachP n false evs).rpc = .pending → allSet (reachP n false evs) = true →
+    (reachP n false evs).woken = true ∨ anyOwes (reachP n false evs) = true
+
+theorem C17_poll_one_load_no_lost_wakeup_fails : ¬ C17_poll_one_load_no_lost_wakeup := by
+  intro h
+  have := h 2 [.fetchOr 0, .load1, .fetchOr 1, .wake 1, .register] (by decide) (by decide)
+  revert this
+  decide
+
+/-- the same interleaving with the second load: the receiver is `Ready` -/
+example : (reachP 2 true [.fetchOr 0, .load1, .fetchOr 1, .wake 1, .register, .load2]).rpc = .ready := by decide
+example : (reachP 2 true [.fetchOr 0, .load1, .register, .load2, .fetchOr 1]).rpc = .pending := by decide
+example : (reachP 2 true [.fetchOr 0, .load1, .register, .load2, .fetchOr 1, .wake 1]).woken = true := by decide
+
+end SwimVerif.CoordPoll
